@@ -132,6 +132,12 @@ def gen_case(rng, gate):
     from vlib.cfggen import base_cfg, gen_turns, merge, gate_cfg
 
     world = gen_world(rng, ngraphs=(2, 3), neps=(8, 20), agents=("A", "B"))
+    if rng.random() < 0.35:
+        # memories without words (empty / blank text): they are hits all the same
+        for e_ in rng.sample(world["eps"], min(len(world["eps"]), rng.randint(1, 3))):
+            e_["text_was"] = e_["text"]
+            e_["text"] = rng.choice(["", "   ", "\t"])
+            e_["vec"] = "enc:" + (e_.get("text_was") or "hello world moon")  # embedded from other words: retrievable
     base = base_cfg(rng)
     base["t2"]["sim_threshold"] = -1.0
     base["t2"]["k_retrieval"] = max(4, base["t2"]["k_retrieval"])
